@@ -41,6 +41,18 @@ struct Engine {
     }
     bool feasible(const z3::expr& c) {
         auto r = check_with(c);
+        if (r == z3::unknown) {
+            // second opinion: the nlsat tactic on the same assertions (polynomial real arithmetic only)
+            try {
+                z3::solver s2 = z3::tactic(ctx, "qfnra-nlsat").mk_solver();
+                z3::params pr(ctx); pr.set("timeout", 3 * timeout_ms); s2.set(pr);
+                for (auto const& a : s->assertions()) s2.add(a);
+                s2.add(c);
+                auto t0 = std::chrono::steady_clock::now();
+                r = s2.check(); ++checks;
+                solver_s += std::chrono::duration<double>(std::chrono::steady_clock::now() - t0).count();
+            } catch (z3::exception&) {}
+        }
         if (r == z3::unknown) { std::ostringstream o; o << "unknown feasibility: " << c; throw Unknown(o.str().substr(0, 300)); }
         return r == z3::sat;
     }
